@@ -5,11 +5,12 @@ import numpy as np
 
 import common
 import oracles
+import replay_run
 import ticc_util as tu
 from common import show_list
 
 LEVEL = "proof"
-LEAN_PROPS = ["FastTicc.Props.C07", "FastTicc.Props.C07mask", "FastTicc.Props.C01", "FastTicc.Props.C06", "FastTicc.Props.C10"]
+LEAN_PROPS = ["FastTicc.Props.C07", "FastTicc.Props.C07mask", "FastTicc.Props.C01", "FastTicc.Props.C06", "FastTicc.Props.C10", "FastTicc.Props.FrontEnd"]
 LEAN_HELPERS = ["FastTicc.Proofs.Stack", "FastTicc.Proofs.Viterbi", "FastTicc.Proofs.Joint"]
 RULE = ("(a) mask helper on all tuples of stacked lengths (quick: 1..4 series, lengths 1..6; thorough: 1..5 series, "
         "lengths 1..7) plus random longer tuples; (b) complete joint runs with 1..6 series of unequal length, observing "
@@ -135,3 +136,8 @@ def run(ctx):
                  sample={"lens": cfg["lens"], "W": W, "K": K, "beta": beta, "rounds": len(tr.kernel_calls)}
                  if completed <= 3 else None)
     ctx.extra["runs_completed"] = completed
+
+    # ---------------- front-end replay: FrontEnd.joint (Lean, masked = false: the code as it is) on the raw series of real
+    # joint calls — the model stacks each series on its own, concatenates, fits, splits and pads
+    if ctx.replay is None:
+        replay_run.front_end_section(ctx, [c for c in cfgs if c.get("joint")], 5 if ctx.quick() else 40)
